@@ -8,7 +8,7 @@ import numpy as np
 from .. import core
 from ..core import SKIP
 
-OPS = {"trackviews", "binned", "maploc", "gjaccard", "locsort", "fromtrack", "seqviews", "files", "sgeometry", "ctor", "xgenome"}
+OPS = {"trackviews", "binned", "maploc", "gjaccard", "locsort", "fromtrack", "seqviews", "files", "sgeometry", "ctor", "xgenome", "hugegenome"}
 MODEL_OPS = {"trackviews", "binned", "maploc", "gjaccard", "locsort", "fromtrack"}
 
 
@@ -36,7 +36,7 @@ def call(c):
         r = t.get_data()
         runs = list(zip(m._names_of(r.chromosome), r.start.tolist(), r.stop.tolist(), np.asarray(r.value).tolist()))
         out["data"] = m._dense_from_runs(c, runs)
-        loc = G.get_locations(LocationEntry([names[x[0]] for x in c["pts"]], np.array([x[1] for x in c["pts"]], dtype=int)))
+        loc = G.get_locations(LocationEntry([names[x[0]] for x in c["pts"]], np.array([x[1] for x in c["pts"]], dtype=m._coord_dtype(c))))
         out["at"] = m._ints(t[loc])
         mask = G.get_intervals(m._mk_intervals(c, False)).get_mask()
         b = t[mask]
@@ -54,13 +54,13 @@ def call(c):
         k = c.get("split", len(pts))
         for part in (pts[:k], pts[k:]):
             if part:
-                bg.count(LocationEntry([names[x[0]] for x in part], np.array([x[1] for x in part], dtype=int)))
+                bg.count(LocationEntry([names[x[0]] for x in part], np.array([x[1] for x in part], dtype=m._coord_dtype(c))))
         d = bg.count_dict
         return {"dict": [m._ints(d[n]) for n in incl], "get": [m._ints(bg[n]) for n in incl]}
     if op == "maploc":
         G = m._genome(c)
         gi = G.get_intervals(m._mk_intervals(c, False))
-        le = LocationEntry([names[x[0]] for x in c["pts"]], np.array([x[1] for x in c["pts"]], dtype=int))
+        le = LocationEntry([names[x[0]] for x in c["pts"]], np.array([x[1] for x in c["pts"]], dtype=m._coord_dtype(c)))
         if c.get("fn") == "module":                    # the single-contig function, one-chromosome genomes only
             from bionumpy.genomic_data.coordinate_mapping import map_locations
             r = map_locations(le, m._mk_intervals(c, False))
@@ -85,7 +85,7 @@ def call(c):
     if op == "locsort":
         from bionumpy.genomic_data.genomic_intervals import GenomicLocation
         ctx = m._genome(c).get_genome_context()
-        loc = GenomicLocation.from_fields(ctx, [names[x[0]] for x in c["pts"]], np.array([x[1] for x in c["pts"]], dtype=int))
+        loc = GenomicLocation.from_fields(ctx, [names[x[0]] for x in c["pts"]], np.array([x[1] for x in c["pts"]], dtype=m._coord_dtype(c)))
         s = loc.sorted()
         rev = loc[::-1]
         f = lambda l: [[idx[n], p] for n, p in zip(m._names_of(l.chromosome), m._ints(l.position))]
@@ -146,6 +146,14 @@ def call(c):
         else:
             GB = bnp.Genome.from_dict({names[i]: sizes[i] for i in c["order2"]})
         stranded = bool(c.get("stranded", False))
+        if c["what"] == "seq":
+            # ONE sequence object, indexed first with intervals of one genome and then with intervals of the other
+            seq = GA.read_sequence(m._fasta_for(c))
+            out = []
+            for G in ((GB, GA, GB) if c.get("first") == "B" else (GA, GB, GA)):
+                gi = G.get_intervals(m._mk_intervals(c, stranded), stranded=stranded)
+                out.append([row.to_string() for row in seq[gi]])
+            return {"calls": out}
         bg = m._bedgraph_from_vals(c)
         stream = c.get("path") == "stream"
         track = GA.get_track(NpDataclassStream(iter([bg]), BedGraph)) if stream else GA.get_track(bg)
@@ -161,6 +169,8 @@ def call(c):
         if stream:
             r = bnp.compute(r)
         return {"rows": m._rows(r)}
+    if op == "hugegenome":
+        return _huge(c)
     if op == "files":
         return _files(c)
     if op == "sgeometry":
@@ -199,6 +209,55 @@ def call(c):
             out += m._obs_intervals(c, t.chromosome, t.start, t.stop)["iv"]
         return {"iv": out}
     raise ValueError(op)
+
+
+def _huge(c):
+    """a genome longer than 2**31 (one huge chromosome first; tracks are run-length encoded so this is cheap) with
+    narrow coordinate columns: everything behind the huge chromosome lies beyond the int32 range in concatenated
+    coordinates although every local coordinate is tiny"""
+    import bionumpy as bnp
+    from bionumpy.datatypes import BedGraph, LocationEntry
+    from bionumpy.genomic_data.geometry import Geometry
+    m = _c10()
+    names, sizes = c["names"], c["sizes"]
+    d = dict(zip(names, sizes))
+    G = bnp.Genome.from_dict(d)
+    small = [i for i in range(len(names)) if sizes[i] < 1000]
+    bnames, bs, be, bv = [], [], [], []
+    for i, n in enumerate(names):
+        if i in small:
+            for p, v in enumerate(c["vals"][i]):
+                bnames.append(n); bs.append(p); be.append(p + 1); bv.append(v)
+        else:
+            bnames.append(n); bs.append(0); be.append(sizes[i]); bv.append(c["vals"][i][0])
+    track = G.get_track(BedGraph(bnames, np.array(bs), np.array(be), np.array(bv)))
+    gi = G.get_intervals(m._mk_intervals(c, False))
+    out = {"rows": m._rows(track[gi])}
+
+    def small_runs(t):
+        r = t.get_data()
+        runs = [(n, a, b, v) for n, a, b, v in zip(m._names_of(r.chromosome), r.start.tolist(), r.stop.tolist(), np.asarray(r.value).tolist())
+                if names.index(n) in small]
+        dd = {}
+        for n, a, b, v in runs:
+            arr = dd.setdefault(n, [])
+            arr.extend([-1] * (b - len(arr)))
+            for p in range(a, b):
+                arr[p] = int(v)
+        return [dd.get(names[i]) for i in small]
+    p = gi.get_pileup()
+    out["pileup"] = small_runs(p)
+    out["psum"] = int(p.sum())
+    out["msum"] = int(gi.get_mask().sum())
+    gp = Geometry(d).get_pileup(m._mk_intervals(c, False))
+    out["gsum"] = int(gp.sum())
+    so = Geometry(d).sort(m._mk_intervals(c, False))
+    out["sort"] = [[names.index(n), a, b] for n, a, b in zip(m._names_of(so.chromosome), m._ints(so.start), m._ints(so.stop))]
+    le = LocationEntry([names[x[0]] for x in c["pts"]], np.array([x[1] for x in c["pts"]], dtype=m._coord_dtype(c)))
+    out["at"] = m._ints(track[G.get_locations(le)])
+    r = gi.map_locations(le)
+    out["map"] = [[int(n), int(q)] for n, q in zip(m._names_of(r.chromosome), m._ints(r.position))]
+    return out
 
 
 def _files(c):
@@ -390,6 +449,19 @@ def oracle(c):
             b = c["bin"]
             out["binned"] = [[sum(1 for x in fpts if x[0] == i and x[1] // b == k) for k in range((sizes[i] + b - 1) // b)] for i in order_idx]
         return out
+    if op == "hugegenome":
+        small = [i for i in range(len(names)) if sizes[i] < 1000]
+        if any(x[0] not in small or not (0 <= x[1] < x[2] <= sizes[x[0]]) for x in iv) or \
+                any(x[0] not in small or not (0 <= x[1] < sizes[x[0]]) for x in pts):
+            return SKIP
+        gpts = sorted(pts)
+        if pts != gpts:
+            return SKIP
+        pile = [[sum(1 for x in iv if x[0] == i and x[1] <= p < x[2]) for p in range(sizes[i])] for i in small]
+        return {"rows": [c["vals"][x[0]][x[1]:x[2]] for x in iv], "pileup": pile, "psum": sum(map(sum, pile)),
+                "msum": sum(1 for ch in pile for v in ch if v), "gsum": sum(map(sum, pile)),
+                "sort": sorted([x[0], x[1], x[2]] for x in iv), "at": [c["vals"][x[0]][x[1]] for x in pts],
+                "map": [[j, x[1] - y[1]] for j, y in enumerate(iv) for x in pts if x[0] == y[0] and y[1] <= x[1] < y[2]]}
     if op == "xgenome":
         if not valid or not iv or any(x[1] == x[2] for x in iv) or any("_" in n for n in names):
             return SKIP
@@ -398,6 +470,12 @@ def oracle(c):
             return SKIP                                # streamed intervals come in their own genome's order
         stranded = bool(c.get("stranded", False))
         same = order2 == list(range(len(names)))
+        if c["what"] == "seq":
+            rows = []
+            for x in iv:
+                row = c["seqs"][x[0]][x[1]:x[2]]
+                rows.append("".join(m._COMP[ch] for ch in reversed(row)) if stranded and not x[3] else row)
+            return {"calls": [rows, rows, rows], "refusal_ok": not same}
         if c["what"] == "bool":
             return {"bool": [c["vals"][i][p] for i in range(len(names)) for p in range(sizes[i]) if mask_of(i, iv)[p]],
                     "refusal_ok": not same}
@@ -499,9 +577,46 @@ def _many_contig_cases(rng, big):
         yield dict(base, op="gjaccard", sets=[iv[:4], iv[2:], iv], vals=vals)
 
 
+def _dtype_cases(rng, big):
+    """narrow coordinate columns (int8 / uint8 / int16 / int32 — what a BAM reader or a user array gives) on genomes
+    whose total length just exceeds the column dtype's range while every chromosome fits: the concatenated
+    coordinates must not be computed in the narrow dtype"""
+    m = _c10()
+    for dtype, sizes in (("int8", [100, 60, 90]), ("uint8", [120, 120, 120]), ("int16", [120, 120, 120]),
+                         ("int8", [127, 1, 127]), ("int32", [100, 60, 90])):
+        names = ["chr1", "chr2", "chr10"][:len(sizes)]
+        base = {"names": names, "sizes": sizes, "filt": True, "dtype": dtype}
+        for _ in range(3 if big else 1):
+            iv = sorted(m._rand_iv(rng, sizes, [1, 2], 3, nonempty=True) + [[2, sizes[2] - 3, sizes[2], True], [1, 0, 2, False]],
+                        key=lambda x: (x[0], x[1]))
+            vals = [[(3 * i + p) % 7 for p in range(s)] for i, s in enumerate(sizes)]
+            pts = sorted([[2, sizes[2] - 1], [1, 0], [2, 0], [1, sizes[1] - 1]])
+            for via in ("genome", "geometry"):
+                yield dict(base, op="pileup", via=via, iv=iv, stranded=False)
+                yield dict(base, op="mask", via=via, iv=iv, stranded=False)
+                yield dict(base, op="merge", via=via, iv=iv, d=0)
+                yield dict(base, op="sort", via=via, iv=list(reversed(iv)))
+            yield dict(base, op="extract", iv=iv, stranded=True, vals=vals)
+            yield dict(base, op="trackviews", iv=iv, pts=pts, vals=vals)
+            yield dict(base, op="maploc", iv=iv, pts=pts)
+            yield dict(base, op="l2g", pts=pts)
+            yield dict(base, op="binned", pts=pts, bin=7, split=2)
+            yield dict(base, op="locsort", pts=list(reversed(pts)))
+            yield dict(base, op="windows", pts=pts, flank=2, wsize=None)
+            for path in ("as_stream", "stream"):
+                yield dict(base, op="pileup", via="genome", path=path, iv=iv, cuts=[2], stranded=False)
+    # the int32 boundary itself: one chromosome of almost 2**31 bases in front
+    for dtype in ("int32", "int64"):
+        sizes = [2_147_483_640, 20, 30]
+        vals = [[1], [(p % 5) + 2 for p in range(20)], [(p % 3) + 7 for p in range(30)]]
+        yield {"op": "hugegenome", "names": ["chr1", "chr2", "chr3"], "sizes": sizes, "filt": True, "dtype": dtype, "vals": vals,
+               "iv": [[1, 12, 20, True], [1, 0, 3, True], [2, 0, 5, True], [2, 25, 30, True]], "pts": [[1, 0], [1, 19], [2, 0], [2, 29]]}
+
+
 def cases(tier, rng):
     m = _c10()
     big = tier in ("thorough", "widen")
+    yield from _dtype_cases(rng, big)
     yield from _many_contig_cases(rng, big)
     # two genome objects over the same chromosomes in different orders, alive together: a track of one indexed with
     # intervals / a mask of the other must give the right chromosome's values or refuse
@@ -522,6 +637,10 @@ def cases(tier, rng):
                            "iv": siv, "stranded": stranded, "path": "stream", "what": "extract"}
                 yield {"op": "xgenome", "names": names, "sizes": sizes, "filt": True, "order2": order2, "vals": vals,
                        "iv": iv, "stranded": False, "path": "mem", "what": "bool"}
+                seqs = ["".join(rng.choice("ACGT") for _ in range(s_)) for s_ in sizes]
+                for first in ("A", "B"):
+                    yield {"op": "xgenome", "names": names, "sizes": sizes, "filt": True, "order2": order2, "vals": vals,
+                           "iv": iv, "stranded": rng.random() < 0.5, "path": "mem", "what": "seq", "seqs": seqs, "first": first}
                 yield {"op": "xgenome", "names": names, "sizes": sizes, "filt": True, "order2": order2, "vals": vals,
                        "iv": iv, "iv2": m._rand_iv(rng, sizes, list(range(n)), 3, nonempty=True), "stranded": False,
                        "path": "mem", "what": "and"}
